@@ -3,8 +3,8 @@
    descriptormodify.go (Data, Set.. ), segmentationdescriptor.go (componentOffset.data, UPID/MID getters),
    psi/psi.go (TableHeader.Data).  REPAIRED code for F9 (cancelled splice_insert stops after the
    indicator; component splice_time emitted when NOT immediate; SCTE35.SetHasPTS passes its flag).
-   NOT repaired (modelled as it is): UPID.SetUPID through MID()[j] leaves upidLen stale;
-   spliceTimeBytes emits 0x7E (reserved bit 0 cleared) for an unspecified time.
+   Also repaired in /repo HEAD and modelled so: UPID.SetUPID sets upidLen = len(value) (0cd2c00);
+   spliceTimeBytes emits 0x7F for an unspecified time (ce48cf3).
    Rendering: byte(x>>k) = (x / 2^k) mod 256, `& (2^k-1)` = mod 2^k, OR of disjoint fields = +. *)
 From Gots Require Import Base.Prelude Model.Pts Model.Scte.
 Module ScteEnc.
@@ -91,7 +91,7 @@ Inductive desc_op :=
 | DSetMID (l : list (N * bytes))          (* UPIDs made by CreateUPID + SetUPIDType + SetUPID *)
 | DSetComponents (l : list (N * N))       (* made by CreateComponentOffset + SetComponentTag + SetPTSOffset *)
 | DSetHasSubSegments (b : bool)
-| DMidSetUPID (j : nat) (b : bytes)       (* MID()[j].SetUPID(b): writes through the pointer into d.mid[j] *)
+| DMidSetUPID (j : nat) (b : bytes)       (* MID()[j].SetUPID(b): writes through the pointer into d.mid[j], length included *)
 | DMidSetUPIDType (j : nat) (v : N).      (* MID()[j].SetUPIDType(v) *)
 
 Definition apply_desc_op (o : desc_op) (d : segdesc) : segdesc :=
@@ -132,7 +132,7 @@ Definition apply_desc_op (o : desc_op) (d : segdesc) : segdesc :=
     | DSetHasSubSegments b => mkseg ty eid hasdur dur uty u m sn se ssn sse owner cancel dnr b prog web nobl arch dev comps
     | DMidSetUPID j b =>
       if negb (uty =? SegUPIDMID) then d     (* MID() returns nil: nothing to call *)
-      else mkseg ty eid hasdur dur uty u (upd_nth m j (fun e => mkupid (u_type e) (u_len e) b))
+      else mkseg ty eid hasdur dur uty u (upd_nth m j (fun e => mkupid (u_type e) (len b) b))   (* 0cd2c00: upidLen = len(value) *)
                  sn se ssn sse owner cancel dnr hassub prog web nobl arch dev comps
     | DMidSetUPIDType j v =>
       if negb (uty =? SegUPIDMID) then d
@@ -153,7 +153,7 @@ Definition set_owner (o : option N) (d : segdesc) : segdesc :=
 
 (* ---- Data() of commands and descriptors ---- *)
 Definition splice_time_bytes (has : bool) (pts : N) : bytes :=
-  if has then (254 + (pts / T32) mod 2) :: to_be32 pts else [126].
+  if has then (254 + (pts / T32) mod 2) :: to_be32 pts else [127].   (* ce48cf3: all seven reserved bits set *)
 
 Definition comp_data (imm : bool) (c : component) : bytes :=
   c_tag c :: (if negb imm then splice_time_bytes (c_has_pts c) (c_pts c) else []).
